@@ -40,6 +40,17 @@ func TestProp_WholeRuns(t *testing.T) {
 				vlib.ScenarioName, c, d1, c, d2, c, c)
 			shape.Desc = fmt.Sprintf("file c=%d stage-handover users(%dms)->constant(%dms)->users(120ms)", c, d1, d2)
 		}
+		// a config-file stage whose ticks request hundreds of thousands of iterations from one or two workers:
+		// nearly all of them are dropped, tick after tick, and the run is interrupted while that goes on
+		hugeBacklog := !long && !handover && rapid.IntRange(0, 3).Draw(rt, "hugeBacklog") == 0
+		if hugeBacklog {
+			c := rapid.IntRange(1, 2).Draw(rt, "backlogConcurrency")
+			per := rapid.SampledFrom([]int{150000, 400000}).Draw(rt, "backlogPerTick")
+			shape = vlib.Shape{Mode: "file", Flags: map[string]string{}, Concurrency: c, MaxDuration: 5 * time.Second}
+			shape.FileYAML = fmt.Sprintf("scenario: %s\nlimits:\n  max-duration: 5s\n  concurrency: %d\n  max-iterations: 0\n  ignore-dropped: true\nstages:\n"+
+				"- duration: 5s\n  mode: constant\n  rate: %d/20ms\n  jitter: 0\n  distribution: none\n", vlib.ScenarioName, c, per)
+			shape.Desc = fmt.Sprintf("file c=%d constant %d/20ms (huge backlog), interrupted", c, per)
+		}
 		failEvery := rapid.SampledFrom([]int{0, 2, 3, 5, 11}).Draw(rt, "failEvery")
 		panicEvery := rapid.SampledFrom([]int{0, 0, 7, 13}).Draw(rt, "panicEvery")
 		bodyUs := rapid.SampledFrom([]int{0, 0, 50, 500, 2000}).Draw(rt, "bodyMicros")
@@ -49,9 +60,9 @@ func TestProp_WholeRuns(t *testing.T) {
 		if handover {
 			failEvery, panicEvery = 2, 0
 		}
-		metricsOn := rapid.IntRange(0, 3).Draw(rt, "metricsOn") != 0
+		metricsOn := hugeBacklog || rapid.IntRange(0, 3).Draw(rt, "metricsOn") != 0
 		// some runs are the second run on a metrics instance that already served an identical run
-		secondRun := !long && rapid.IntRange(0, 3).Draw(rt, "secondRunOnSameMetrics") == 0
+		secondRun := !long && !hugeBacklog && rapid.IntRange(0, 3).Draw(rt, "secondRunOnSameMetrics") == 0
 
 		var passed, failed atomic.Uint64
 		var inFlight atomic.Int64
@@ -95,8 +106,11 @@ func TestProp_WholeRuns(t *testing.T) {
 		}
 		// one run in five is interrupted by the caller at a drawn instant: what ran is counted all the same
 		cancelAt := 0
-		if rapid.IntRange(0, 4).Draw(rt, "endByCancel") == 0 {
+		if hugeBacklog || rapid.IntRange(0, 4).Draw(rt, "endByCancel") == 0 {
 			cancelAt = rapid.IntRange(1, int(shape.MaxDuration.Milliseconds())).Draw(rt, "cancelAtMs")
+			if hugeBacklog {
+				cancelAt = rapid.IntRange(25, 150).Draw(rt, "backlogCancelAtMs")
+			}
 			ctx, cancel := context.WithCancel(context.Background())
 			defer cancel()
 			spec.Ctx = ctx
@@ -139,6 +153,9 @@ func TestProp_WholeRuns(t *testing.T) {
 		}
 		if cancelAt > 0 {
 			cls = append(cls, "interrupted-by-the-caller")
+		}
+		if hugeBacklog {
+			cls = append(cls, "huge-backlog-being-dropped-at-the-interruption")
 		}
 		stats.Case("runs", shape.Desc+fmt.Sprint(failEvery, panicEvery, bodyUs, metricsOn), nontrivial, cls, func() any {
 			return map[string]any{"shape": shape.Desc, "failEvery": failEvery, "panicEvery": panicEvery, "bodyMicros": bodyUs,
